@@ -48,6 +48,8 @@ fn check_cfg(prop: &str, tier: Tier) -> Option<driver::CheckCfg> {
         "C18" => ("exploration", "one evaluation = one simulated run of a single IceConn (latching enabled, probation 0..8, expected SSRC known/unknown, rtcp-mux on/off, signalled remote = a silent address / one of the sources / not set) under a plan expanded from (VERIF_SEED, run index); after every delivered packet remote_addr, remote_rtcp_addr and rtp_latched are compared with a reference model of the documented rules. Even run indices below 2x the enumerated space are exhaustive small-scope blocks (knob enum=1: 512 consecutive sequences of ALL length-5 (quick) / length-6 (thorough) words over 21 symbols = {A,C,M} x {matching RTP x marker 0/1 x seq +1/jump, other-SSRC RTP, RTCP} + {reset_latch, signalling retarget, selected-pair update}, for probation in {0,1,2,3,6,8} x signalled remote in {silent address, source A}; knob enum=2: all length-8 / length-10 marker-less matching words over {A,C,M} x {+1, jump} for probation {6,8}; every word runs on a fresh IceConn and is fed straight to IceConn::receive; prefixes cover all shorter words; other_stats.seqs counts the words). The other runs (enum=0) are random sequences of up to ~60 packets from up to 5 source addresses through the simulated socket and pump task, with generator-drawn reordering/duplication between sources, sequence jumps and wraps, wrong-SSRC streams, RTCP from RTP and RTP+1 ports, runts, non-RTP junk and interleaved control ops. distinct = semantic trace (per packet: source, class, SSRC match, marker, resulting addresses and latch flag; no sequence numbers, times or lengths) not seen before in the batch; non-trivial = at commit time at least two competing sources had sent matching RTP, or a packet from an address other than the committed one was delivered after commit."),
         "C10" => ("exploration", "one evaluation = two full PeerConnections (ICE gathering, checks, nomination, DTLS-SRTP or SDES or plain RTP, SCTP/DCEP, media tracks) on a fault-free simulated network with a configuration point of the lattice mode{WebRtc,Srtp,Rtp} x mix{dc,audio,audio+video,dc+audio,dc+audio+video} x bundle{3} x rtcp-mux{2} x ICE-lite{none,A,B} x UDP-mux{off,answerer} x latching{off,on,on+probation} x compat{Standard,LegacySip} x offerer{A,B}, filtered by the written compatibility predicate (rig_pc.rs PcKnobs::compatible); thorough enumerates every compatible point once, quick samples them; latencies and task schedule are seeded per run. distinct = semantic trace hash; non-trivial = the exchange reached the data/media phase."),
         "C17" => ("exploration", "one evaluation = a PeerConnection pair driven by an application task from creation through offer/answer, ICE, DTLS, SCTP/DCEP to steady traffic; at a planned crash point (one of 9 phase boundaries + a delta of 0..150 ms, or an absolute time) one terminating event {close, drop of every handle, close twice, peer DTLS close_notify, forged-with-session-keys SCTP ABORT / SHUTDOWN, ICE stop, total partition, close with a sender blocked on flow control} hits one side, optionally a second event races it 0..5 ms later. The systematic core (10 phases x 9 events x 2 sides) runs first, then seeded combinations over transport modes and media mixes. distinct = semantic trace hash; non-trivial = an event was applied."),
+        "C06" => ("exploration", "one evaluation = one simulated run of scenario ice_stun: two real IceTransports A (10.0.0.1; role controlling or controlled; optionally behind the single-port shared-UDP mux) and B (10.0.0.2, opposite role) in WebRTC mode with UDP host candidates on the simulated network, and an attacker host M that injects STUN datagrams towards A built by the harness' own encoder (own HMAC-SHA1 MESSAGE-INTEGRITY and CRC32 FINGERPRINT): Binding requests with USERNAME {absent, wrong, right, swapped} x MESSAGE-INTEGRITY {absent, garbage, keyed with a wrong key, keyed with A's local password} x +-USE-CANDIDATE x FINGERPRINT {none, valid, wrong} x ICE-CONTROLLING/CONTROLLED/none x PRIORITY, and unsolicited success / 401 / 487 responses with random transaction ids, ids of already answered transactions of A or the newest id A used, from a fresh address, B's spoofed address, the address of a signalled-but-silent candidate of B, or M with B's port; delivered while A is New (before start), Checking (started, held there by a silent candidate of B until B is started) or Connected. The plan fixes the timeline (A start, B start, end), latencies, scheduler seed/deferral, the attacker packets and, in a quarter of the swarm runs, drop/dup/delay/late-dup/bit-flip rules on the genuine STUN datagrams. Run indices below 576 enumerate the systematic core USERNAME 3 x MI 4 x USE-CANDIDATE 2 x FINGERPRINT 2 x state 3 x role 2 x source {fresh, spoofed B} with one packet per run (thorough: four rounds, the later ones with other latencies, mux, early remote parameters, deferral); the other indices are swarm runs with 1-6 attacker packets; 7 % of them are attacker-free control runs in which any broken ledger invariant is a harness error. Oracle form: invariants over a ledger of what was delivered to A (every remote candidate address was signalled or is the source of a request with USERNAME '<A-ufrag>:...' and MESSAGE-INTEGRITY valid under A's password; the selected remote answered a transaction of A or sent such a request; Connected / nomination need a matching success response or an authenticated USE-CANDIDATE), checked after every attacker packet, every 500 ms and at the end, plus a before/after differential around each attacker packet that is judged only when nothing else was delivered to A and no API call was made on A from 500 ms before the packet to the second sample. distinct = semantic event trace (rig knobs, API steps, attacker packet variants with A's state at injection, every change of A's {state, nomination, selected remote, candidate set} in symbolic addresses, wire classes; no timestamps, lengths, ports or credentials) hashes to a value not seen before in the batch; non-trivial = at least one attacker packet was delivered while A was in the state the plan targets (knob target)."),
+        "C09" => ("exploration", "one evaluation = one simulated run of scenario signaling: two full PeerConnections A and B on the fault-free simulated network (transport mode WebRtc / Srtp / Rtp; data channel and/or audio / video tracks; fresh, or negotiated once with transports still starting, or negotiated once and connected) execute a program of 1..12 API calls strictly in order, 0..50 ms of virtual time apart, while ICE gathering, connectivity checks, DTLS and SCTP run in the background under the seeded scheduler: create_offer(side), create_answer(side), set_local(side, what), set_remote(side, what), close(side), where `what` is the side's own latest create_* result, the peer's latest offer / answer carried as text (to_sdp_string -> SessionDescription::parse), a stale one from an earlier round, a duplicate of the last applied one, the same text typed pranswer, a rollback description, each optionally edited in transit (payload type, direction, a=mid, extra m-section, fingerprint changed / removed / sha-1, a=mid:65535, media kind swapped, duplicate mids, no m-sections, extmap id, a=crypto removed, c= address). Run indices below the exhaustive count enumerate EVERY program of length <= 3 (quick) / <= 4 (thorough) over the 16-symbol alphabet {A,B} x {create_offer, create_answer, set_local(own latest), set_remote(peer's latest offer), set_remote(peer's latest answer), set_local(pranswer), set_remote(rollback), close} on a fresh and on a once-negotiated connected pair in each of the three transport modes (index -> configuration = idx mod 6, program = idx div 6); the remaining indices are seeded longer programs assembled from complete rounds, glare (both sides create_offer + set_local before exchanging), provisional-answer rounds and random calls, with lost / duplicated / reordered / substituted calls and the full variant set. Reference model: the JSEP offer/answer machine over Stable / HaveLocalOffer / HaveRemoteOffer / Closed as rustrtc documents it (provisional answers keep the state, rollback is refused, Closed absorbs; a call JSEP allows may still be refused, then nothing may change). Oracles: C09.state after every call and after idle periods; C09.atomic on every Err: signaling state, local and remote description text (modulo a=candidate / a=end-of-candidates lines), transceiver count and every transceiver's identity, mid, direction, kind, sorted payload map and sorted extmap equal their values before the call. A call whose source description does not exist yet (or whose edited text no longer parses) cannot be made and is skipped (other_stats.ops_skipped); a call that panics ends the program (C07's subject, probe.call_panicked). distinct = semantic event trace (rig configuration, per call: side, call and description type, source and edit selector, model state before, Ok / error class, state after; no timestamps, lengths or SDP text) hashes to a value not seen before in the batch; non-trivial = at least one call returned Err while the callee already held a description or a transceiver, or the program applied a stale or duplicate description, or an offer arrived at a side that had a local offer pending (glare)."),
         _ => return None,
     };
     let mut base_assumptions = base_assumptions;
@@ -56,6 +58,10 @@ fn check_cfg(prop: &str, tier: Tier) -> Option<driver::CheckCfg> {
         base_assumptions.push("rustrtc uses a 32-bit SRTCP tag with AES128_CM_HMAC_SHA1_32 (RFC 5764 says 80 bits); for that profile SRTCP datagrams are validated by re-encrypting each application packet with the reference at the SRTCP index seen on the wire and comparing with the tag truncated to 32 bits (reported as probe.srtcp_tag32_dialect, not judged by C14)".to_string());
         base_assumptions.push("sequence numbers stay within one 2^15 window, so the SRTP rollover counter is 0 throughout; replay/ROC behaviour belongs to C05".to_string());
         base_assumptions.push("inside one RtpTransport call there is no await point that yields in the simulation (socket sends complete immediately), so racing tasks interleave at op boundaries and with the receive pump / listener tasks, not inside a gate".to_string());
+    }
+    if prop == "C06" {
+        base_assumptions.push("authenticated = USERNAME whose part before ':' is A's ufrag and a MESSAGE-INTEGRITY (first 0x0008 attribute, HMAC-SHA1 over the message up to it with the adjusted length) valid under A's local password, judged by the harness' own decoder; attacker packets that satisfy this and responses whose transaction id may still be outstanding (sent by A, unanswered, younger than 15 s) are exempt, as the property allows".to_string());
+        base_assumptions.push("only UDP sockets are simulated: TCP candidates (shared_tcp.rs) and TURN relays are excluded; A never enters Disconnected (runs are shorter than the 30 s threshold and B keeps answering), so the effect of unauthenticated datagrams on the liveness timer is not judged".to_string());
     }
     Some(driver::CheckCfg { prop: prop.into(), tier, level, rule: rule.into(), assumptions: base_assumptions, components: components() })
 }
